@@ -79,7 +79,7 @@ Next == \E o \in Ops(s) :
               e == UEventOf(r)
               pre == USnap(s)
           IN /\ s' = r.s
-             /\ bad' = {p \in CheckProps \ {"C15"} : ~M!AllowedBy(p, hs, pre, e)}
+             /\ bad' = {p \in CheckProps : ~M!AllowedBy(p, hs, pre, e)}
                        \cup (IF "C15" \in CheckProps /\ ~Pure(o, s, r.s) THEN {"C15"} ELSE {})
              /\ hs' = IF CheckProps \ {"C15"} = {} THEN hs ELSE M!HUpdate(CheckProps \ {"C15"}, hs, pre, e)
              /\ h' = IF Emit \/ MaxDepth > 0 THEN Append(h, OpJson(o)) ELSE h
